@@ -76,6 +76,15 @@ def scenario(B, G, kind, n, h):
     for k in range(len(rows)):
         G.eq("probZ_tensor_first[%d]" % k, p_a[k] * Z, prob[k])
         G.eq("probZ_tensor_again[%d]" % k, p_b[k] * Z, prob[k])
+    # results the caller still holds are not overwritten by later calls of the same shape (batched and single-state forms)
+    held = st.probability(space)
+    later = st.probability(space, Zt)
+    ones = [st.probability(C.rows_tensor(B, [v])[0]) for v in rows]
+    hv, lv = B.scalars(held), B.scalars(later)
+    for k in range(len(rows)):
+        G.eq("held_result[%d]" % k, hv[k], prob[k])
+        G.eq("later_result[%d]" % k, lv[k] * Z, prob[k])
+        G.eq("held_single_state_result[%d]" % k, B.scalars(ones[k]).reshape(-1)[0], prob[k])
     # history: the same object, re-parameterised in place (written through .data), must report the new state
     P2 = {net: C.load_rbm(B, getattr(st, "rbm_" + net), net + "'") for net in P}
     prob2 = B.scalars(st.probability(space))
